@@ -113,7 +113,7 @@ def terminate (p : Producer) : Producer × List POut := ({ p with failed := true
 /-- `handleRegisterConsumer` (the sender is the verified consumer companion) -/
 def handleRegister (p : Producer) (nonce : Nat) : Producer × List POut :=
   let p1 := if !p.registered || p.nonce != nonce then
-      { p with registered := true, nonce := nonce, demandUpTo := p.currentSeq }
+      { p with registered := true, nonce := nonce, demandUpTo := min p.demandUpTo p.currentSeq }
     else p
   (p1, [.toConsumer (.regAck p1.session (p1.confirmedSeq + 1) p1.nonce)])
 
